@@ -986,7 +986,7 @@ func runC19CLI(t *sim.T, c *c19Case) *sim.Violation {
 
 func runC19(t *sim.T, tier string) *sim.Violation {
 	c := genC19Case(t, tier)
-	if (tier == "thorough" && t.Chance(1, 40)) || (tier != "thorough" && t.Chance(1, 150)) {
+	if (tier == "thorough" && t.Chance(1, 40)) || (tier != "thorough" && t.Chance(1, 60)) {
 		for _, e := range c.entries {
 			t.Logf("entry %q: %s (%d bytes)", e.name, entKindNames[e.kind], len(e.data))
 		}
